@@ -26,13 +26,19 @@ for e in opn:
 for (p,_),es in grp.items():
     out.append(f"| {p} | {len(es)} | `{es[0]['signature']}` — {esc(es[0]['what'][:260])} |")
 t3='\n'.join(out)
-out=['| seeded change | property | what it does | needs | verdict of the checks run against it |\n|---|---|---|---|---|']
-for d in sorted(glob.glob(V+'/seeded/*/meta.json')):
+out=['| seeded change | round | what it does | needs | verdict of the checks run against it | first missed by, strengthened |\n|---|---|---|---|---|---|']
+tot={};caught={}
+for d in sorted(glob.glob(V+'/seeded/*/meta.json'), key=lambda x:(os.path.basename(os.path.dirname(x)).split('-')[0], int(os.path.basename(os.path.dirname(x)).split('-')[1]))):
     m=json.load(open(d)); name=os.path.basename(os.path.dirname(d))
+    k=int(name.split('-')[1]); rnd=(k-1)//3+1
     v=m.get('validation',{})
     ch='; '.join(f"{k}: {x['verdict']}" for k,x in v.get('checks',{}).items())
     for k,x in m.get('later_checks',{}).items(): ch+=f"; {k}: {x}"
-    out.append(f"| {name} | {m.get('property')} | {esc(str(m.get('summary'))[:200])} | {esc(str(m.get('needs'))[:160])} | {ch} |")
+    tot[rnd]=tot.get(rnd,0)+1
+    if 'CAUGHT' in ch: caught[rnd]=caught.get(rnd,0)+1
+    out.append(f"| {name} | {rnd} | {esc(str(m.get('summary'))[:200])} | {esc(str(m.get('needs'))[:160])} | {ch} | {esc(str(m.get('first_missed','')))} |")
+out.append('')
+out.append('Caught by at least one check on the final machinery: '+', '.join(f"round {r}: {caught.get(r,0)}/{tot[r]}" for r in sorted(tot)))
 t4='\n'.join(out)
 p=V+'/DESIGN.md'; s=open(p).read()
 for name,t in [('findings-summary',t1),('fixed-list',t2),('open-list',t3),('seeded-table',t4)]:
